@@ -125,7 +125,7 @@ STREAMS = [
     ("ok", "G F0", 2, 3, 3, 2, 2, "thorough", 3600),
     ("ok", "F- G F+", 3, 3, 2, 2, 2, "thorough", 3600),
     ("ok", "F+ G F-", 2, 3, 2, 3, 2, "thorough", 3600),
-    ("ok", "F+", 3, 9, 0, 3, 3, "thorough", 3600),
+    ("ok", "F+", 2, 6, 0, 3, 3, "thorough", 3600),
     ("ok", "F-", 3, 9, 0, 3, 3, "thorough", 3600),
     ("ok", "G F- G", 3, 3, 3, 2, 2, "thorough", 3600),
     ("ok", "F0 G F0", 2, 2, 2, 2, 2, "thorough", 3600),
